@@ -651,6 +651,11 @@ ASSUMPTIONS = [
 
 
 def run(tier, seed):
+    def extra(r, cases, obs):
+        cov = _extra(r, cases, obs)
+        from . import c12run       # the cache after EventMgr.run(once=True): the start-up synchronisation
+        cov.update(c12run.stage(r, seed, 150 if tier == 'quick' else 4000))
+        return cov
     core.standard_run(PID, tier, seed, {
         'model_vos': ['Node/Fs', 'Node/Cache'], 'table_sections': ['c12', 'source_shape'],
         'preamble': preamble(), 'run_fn': RUN_FN, 'in_type': 'case',
@@ -664,10 +669,13 @@ def run(tier, seed):
                 '55% of cases inject one fault (create, inside dump at a cut, fchmod, replace, right after replace, final '
                 'unlink) as exception or kill; right after replace without kill = a reader opens the instance name in the '
                 'same process before control returns to write_safe; non-trivial = (an extra entry and a fetched entry) or a fault fired',
-        'trusted': TRUSTED, 'assumptions': ASSUMPTIONS, 'anchors': ANCHORS, 'extra': _extra,
+        'trusted': TRUSTED, 'assumptions': ASSUMPTIONS, 'anchors': ANCHORS, 'extra': extra,
     })
 
 
 def replay_case(case):
+    if isinstance(case, dict) and case.get('engine') == 'E-node-c12run':
+        from . import c12run
+        return c12run.replay_case(case)
     v = oracle(case, impl_run(case))
     return v[0] if v else None
